@@ -196,11 +196,12 @@ Inductive gkind :=
 | GCfg
 | GCtx (items : list ctx_item)
 | GGen (gens : list isig) (exports : fmap) (inner : env) (obl : list obligation)
-| GInst (exports : fmap).
+| GInst (exports : fmap)
+| GBody.
 Record gentry := GEntry { g_lib : ident; g_name : ident; g_kind : gkind }.
 Definition genv := list gentry.
 
-Definition is_arch (k : gkind) : bool := match k with GArch _ => true | _ => false end.
+Definition is_arch (k : gkind) : bool := match k with GArch _ | GBody => true | _ => false end.
 (* primary units (and package instances) of a library share one name space *)
 Fixpoint find_unit (G : genv) (l n : ident) : option gkind :=
   match G with
@@ -397,6 +398,7 @@ Definition root_gen
     (blame_ : sty -> expr -> nid * cls)
     (t : sty) (e : expr) : res unit :=
   match e with
+  | EAgg i (ACons ChPos _ ANil) => Bad i Conservative     (* `(e)` is a parenthesised expression, not an aggregate *)
   | EAgg i els =>
       match t with
       | SRec _ _ fs => fields_ i fs fs els
@@ -744,8 +746,12 @@ Definition decl_occ (d : decl) : occ :=
   end.
 
 (* body of a subprogram: parameters and locals in a new region *)
+(* inside a subprogram body the signals and variables declared outside it are not referred to (LRM 4.3: pure
+   functions; procedures outside processes must not assign other signals): they are simply not visible *)
+Definition pure_view (G : env) : env :=
+  set_vis G (fun x => filter (fun b => match b_kind b with BObj KSig _ _ | BObj KVar _ _ => false | _ => true end) (e_vis G x)).
 Definition check_sub_body (G : env) (ps : list param) (ret : option sty) (ls : list ldecl) (b : stmts) : res unit :=
-  G1 <- declare_params (set_ret (push G) (Some ret)) ps ;;
+  G1 <- declare_params (set_ret (push (pure_view G)) (Some ret)) ps ;;
   G2 <- check_ldecls G1 ls ;;
   check_stmts G2 b.
 
@@ -947,16 +953,166 @@ with check_concs (G : env) (c : concs) {struct c} : res unit :=
   | CCons x r => check_conc G x ;;; check_concs G r
   end.
 
+End WithGlobals.
+
 (* ------------------------------------------------------------------------------------------ *)
 (* context clauses                                                                              *)
 (* ------------------------------------------------------------------------------------------ *)
-Variable LIBS : list ident.      (* the libraries of the program *)
+Definition import_all (ex : fmap) (m : fmap) : fmap := fun y => fimports y (ex y) m y.
+Definition only_lits (bs : list binding) : list binding :=
+  filter (fun b => match b_kind b with BLit _ => true | _ => false end) bs.
+Definition lits_of_bindings (bs : list binding) : list ident :=
+  flat_map (fun b => match b_kind b with BType (SEnum _ _ lits) => lits | _ => [] end) bs.
+(* `use l.p.x`: the declarations named x and, for an enumeration type, its literals (VHDL-2008 12.4; the
+   predefined operators follow the type, see ops_visible) *)
+Definition import_item (ex : fmap) (x : ident) (m : fmap) : fmap :=
+  let lits := lits_of_bindings (ex x) in
+  fun y => if y =? x then fimports x (ex x) m y
+           else if existsb (N.eqb y) lits then fimports y (only_lits (ex y)) m y
+           else m y.
 
-(* `use l.p.x`: the declarations named x and, for a type, its enumeration literals (VHDL-2008 12.4);
-   the literals of an enumeration type declared in a package are exported under their own names, and
-   the type's value carries its declared name, so they are found through `lits_of`. *)
-Definition import_item (ex : fmap) (lits : list ident) (x : ident) (G : env) : env :=
-  let G1 := set_vis G (fimports x (ex x) (e_vis G)) in
-  fold_right (fun y G' => set_vis G' (fimports y (filter (fun b => match b_kind b with BLit _ => true | _ => false end) (ex y)) (e_vis G'))) G1 lits.
+Definition check_ctx_basic (GE : genv) (LIBS : list ident) (G : env) (x : ctx_item) : res env :=
+  match x with
+  | XLib l =>
+      guard (negb (o_id l =? id_undeclared) && existsb (N.eqb (o_id l)) LIBS) (o_nid l) UnknownLib ;;;
+      Ok (add_lib G (o_id l))
+  | XUseAll l p => ex <- sel_pkg GE G l p ;; Ok (set_vis G (import_all ex (e_vis G)))
+  | XUseItem l p x =>
+      ex <- sel_pkg GE G l p ;;
+      sel_item GE G l p x ;;;
+      Ok (set_vis G (import_item ex (o_id x) (e_vis G)))
+  | XCtxRef l c => Bad (o_nid c) Conservative
+  end.
+Fixpoint check_ctx_basics (GE : genv) (LIBS : list ident) (G : env) (xs : list ctx_item) : res env :=
+  match xs with [] => Ok G | x :: r => G' <- check_ctx_basic GE LIBS G x ;; check_ctx_basics GE LIBS G' r end.
+Definition check_ctx_item (GE : genv) (LIBS : list ident) (G : env) (x : ctx_item) : res env :=
+  match x with
+  | XCtxRef l c =>
+      guard (negb (o_id l =? id_undeclared) && e_libs G (o_id l)) (o_nid l) Undeclared ;;;
+      match find_unit GE (o_id l) (o_id c) with
+      | Some (GCtx items) =>
+          match check_ctx_basics GE LIBS G items with
+          | Ok G' => Ok G'
+          | Bad _ _ => Bad (o_nid c) Other
+          end
+      | _ => Bad (o_nid c) UnknownUnit
+      end
+  | _ => check_ctx_basic GE LIBS G x
+  end.
+Fixpoint check_ctx (GE : genv) (LIBS : list ident) (G : env) (xs : list ctx_item) : res env :=
+  match xs with [] => Ok G | x :: r => G' <- check_ctx_item GE LIBS G x ;; check_ctx GE LIBS G' r end.
 
-End WithGlobals.
+(* ------------------------------------------------------------------------------------------ *)
+(* design units                                                                                 *)
+(* ------------------------------------------------------------------------------------------ *)
+Definition rehome (h : ident * ident) (ex : fmap) : fmap :=
+  fun y => map (fun b => Bnd (b_kind b) (Some h)) (ex y).
+Fixpoint has_body (G : genv) (l n : ident) : bool :=
+  match G with
+  | [] => false
+  | g :: r => ((g_lib g =? l) && (g_name g =? n) && match g_kind g with GBody => true | _ => false end) || has_body r l n
+  end.
+Definition fresh_unit (GE : genv) (lib : ident) (o : occ) : res unit :=
+  guard (negb (o_id o =? id_undeclared)) (o_nid o) Conservative ;;;
+  guard (match find_unit GE lib (o_id o) with None => true | Some _ => false end) (o_nid o) Duplicate.
+
+(* analysis of one design unit of library `lib`, number `uid`: the entry it adds to the global environment *)
+Definition check_unit (md : mode) (GE : genv) (LIBS : list ident) (lib : ident) (uid : N) (u : dunit) : res gentry :=
+  match u_body u with
+  | UPkg o ds =>
+      fresh_unit GE lib o ;;;
+      G0 <- check_ctx GE LIBS (env0 uid) (u_ctx u) ;;
+      G1 <- check_decls md GE RPkg [] (set_home G0 (Some (lib, o_id o))) ds ;;
+      Ok (GEntry lib (o_id o) (GPkg (e_cur G1) G1 (flat_map (decl_obligation GE G1) ds)))
+  | UGen o gs ds =>
+      fresh_unit GE lib o ;;;
+      G0 <- check_ctx GE LIBS (env0 uid) (u_ctx u) ;;
+      Gg <- declare_ifaces md GE KConst (set_home G0 (Some (lib, o_id o))) gs ;;
+      G1 <- check_decls md GE RGen [] Gg ds ;;
+      Ok (GEntry lib (o_id o) (GGen (map (iface_sig GE Gg) gs) (e_cur G1) G1 (flat_map (decl_obligation GE G1) ds)))
+  | UBody o ds =>
+      match (if o_id o =? id_undeclared then None else find_unit GE lib (o_id o)) with
+      | Some (GPkg _ inner obl) | Some (GGen _ _ inner obl) =>
+          guard (negb (has_body GE lib (o_id o))) (o_nid o) Duplicate ;;;
+          G0 <- check_ctx GE LIBS (set_done (set_home (set_uid inner uid) None) []) (u_ctx u) ;;
+          G1 <- check_decls md GE RBody obl G0 ds ;;
+          guard (forallb (fun ob => existsb (ob_eqb ob) (e_done G1)) obl) (o_nid o) Other ;;;
+          Ok (GEntry lib (o_id o) GBody)
+      | _ => Bad (o_nid o) UnknownUnit
+      end
+  | UEnt o gs ps =>
+      fresh_unit GE lib o ;;;
+      G0 <- check_ctx GE LIBS (env0 uid) (u_ctx u) ;;
+      Gg <- declare_ifaces md GE KConst G0 gs ;;
+      Gp <- declare_ifaces md GE KSig Gg ps ;;
+      Ok (GEntry lib (o_id o) (GEnt (map (iface_sig GE Gp) gs) (map (iface_sig GE Gp) ps) Gp))
+  | UArch o e ds body =>
+      match (if o_id e =? id_undeclared then None else find_unit GE lib (o_id e)) with
+      | Some (GEnt _ _ inner) =>
+          guard (negb (o_id o =? id_undeclared)) (o_nid o) Conservative ;;;
+          guard (negb (find_arch GE lib (o_id e) (o_id o))) (o_nid o) Duplicate ;;;
+          G0 <- check_ctx GE LIBS (set_uid inner uid) (u_ctx u) ;;
+          G1 <- check_decls md GE RArch [] G0 ds ;;
+          guard (nodup_idents (labels_concs body)) (o_nid o) Conservative ;;;
+          check_concs md GE G1 body ;;;
+          Ok (GEntry lib (o_id o) (GArch (o_id e)))
+      | _ => Bad (o_nid e) UnknownUnit
+      end
+  | UCfg o e a =>
+      fresh_unit GE lib o ;;;
+      check_ctx GE LIBS (env0 uid) (u_ctx u) ;;;
+      match (if o_id e =? id_undeclared then None else find_unit GE lib (o_id e)) with
+      | Some (GEnt _ _ _) =>
+          guard (negb (o_id a =? id_undeclared) && find_arch GE lib (o_id e) (o_id a)) (o_nid a) UnknownArch ;;;
+          Ok (GEntry lib (o_id o) GCfg)
+      | _ => Bad (o_nid e) UnknownUnit
+      end
+  | UCtx o items =>
+      fresh_unit GE lib o ;;;
+      guard (match u_ctx u with [] => true | _ => false end) (o_nid o) Conservative ;;;
+      check_ctx_basics GE LIBS (env0 uid) items ;;;
+      Ok (GEntry lib (o_id o) (GCtx items))
+  | UInst o l g gm =>
+      fresh_unit GE lib o ;;;
+      G0 <- check_ctx GE LIBS (env0 uid) (u_ctx u) ;;
+      guard (negb (o_id l =? id_undeclared) && e_libs G0 (o_id l)) (o_nid l) Undeclared ;;;
+      match (if o_id g =? id_undeclared then None else find_unit GE (o_id l) (o_id g)) with
+      | Some (GGen gs ex _ obl) =>
+          guard (match obl with [] => true | _ => has_body GE (o_id l) (o_id g) end) (o_nid g) Other ;;;
+          check_amap (check_generic_actual md GE G0) (o_nid g) gs gm ;;;
+          Ok (GEntry lib (o_id o) (GInst (rehome (lib, o_id o) ex)))
+      | _ => Bad (o_nid g) UnknownUnit
+      end
+  end.
+
+Fixpoint check_units (md : mode) (GE : genv) (LIBS : list ident) (lib : ident) (uid : N) (us : list dunit) : res (genv * N) :=
+  match us with
+  | [] => Ok (GE, uid)
+  | u :: r =>
+      g <- check_unit md GE LIBS lib uid u ;;
+      check_units md (GE ++ [g]) LIBS lib (uid + 1) r
+  end.
+Fixpoint check_libs (md : mode) (GE : genv) (LIBS : list ident) (uid : N) (ls : list library) : res genv :=
+  match ls with
+  | [] => Ok GE
+  | l :: r =>
+      x <- check_units md GE LIBS (l_name l) uid (l_units l) ;;
+      check_libs md (fst x) LIBS (snd x) r
+  end.
+(* every package (declaration) with obligations has a body *)
+Definition complete (GE : genv) : bool :=
+  forallb (fun g => match g_kind g with
+                    | GPkg _ _ (_ :: _) | GGen _ _ _ (_ :: _) => has_body GE (g_lib g) (g_name g)
+                    | _ => true end) GE.
+Definition check_program_md (md : mode) (p : program) : res unit :=
+  let LIBS := map l_name p in
+  guard (nodup_idents LIBS && negb (existsb (N.eqb id_undeclared) LIBS)) 0 Other ;;;
+  GE <- check_libs md [] LIBS 0 p ;;
+  guard (complete GE) 0 Other.
+
+Definition check_program := check_program_md Exactly.
+Definition Valid (p : program) : Prop := check_program p = Ok tt.
+Definition WT (p : program) : Prop := check_program_md AtLeast p = Ok tt.
+Definition valid_b (p : program) : bool := match check_program p with Ok _ => true | Bad _ _ => false end.
+Definition blame_program (p : program) : option (nid * cls) :=
+  match check_program p with Ok _ => None | Bad n c => Some (n, c) end.
